@@ -385,7 +385,7 @@ func (p *sparser) mul() SExpr {
 	return x
 }
 func (p *sparser) unary() SExpr {
-	if p.isOp("!") || p.isOp("-") || p.isOp("*") {
+	if p.isOp("!") || p.isOp("-") || p.isOp("*") || p.isOp("&") {
 		// unary * is pointer dereference (a binary * never starts an operand)
 		op := p.next().val
 		return &SUnary{op, p.unary()}
